@@ -44,6 +44,16 @@ R2 = {
     "C12_6": "fields with commas inside braces in the generated policy files",
     "C15_5": "detour histories: a reload rejected while the links are being built",
     "C15_6": "detour histories: decisions asked, then the role managers swapped, then a grant and a revocation",
+    "C04_7": "filtered-reload stream: Enforcer + FilteredFileAdapter, a filtered load that fails (invalid filter object / file unreachable), fresh-enforcer oracle",
+    "C04_8": "batch removal of a second role definition (g2) in the alphabet",
+    "C04_9": "the list form of the single calls and the async twins in C04's histories",
+    "C09_7": "load_model inside the mirror histories (auto-save flag must survive)",
+    "C14_5": "enforcer probe with the permission rules loaded by load_filtered_policy after the matching function was registered",
+    "C16_4": "sections entered through two guard objects shared by all threads (failing input instead of only a rejected translation)",
+    "C16_5": "half of the programs end every section as if its body had raised (failing input instead of only a rejected translation)",
+    "C17_4": "a scheduling point inside the matcher evaluation (has_link)",
+    "C17_6": "one iteration of the auto-reload loop as an extra thread, with a good and a failing adapter (failing input instead of only a table mismatch)",
+    "C18_5": "an adapter whose update_filtered_policies raises (several exception classes), sync vs async",
     "C20_4": "load_model inside histories (policy invalidated, watcher and flags must stay)",
     "C20_5": "AsyncEnforcer with a watcher whose operation-specific callbacks are plain functions; callbacks record malformed arguments instead of failing",
 }
